@@ -2,6 +2,7 @@ package core
 
 import (
 	"fmt"
+	"sort"
 
 	"github.com/jsightapi/jsight-api-core/directive"
 	"github.com/jsightapi/jsight-api-core/jerr"
@@ -45,9 +46,16 @@ func (core *JApiCore) addMacro(d *directive.Directive) *jerr.JApiError {
 }
 
 func (core *JApiCore) checkMacroForRecursion() *jerr.JApiError {
-	for macroName, macro := range core.macro {
+	// In the order of the names, so that the same document always gives the same error.
+	names := make([]string, 0, len(core.macro))
+	for macroName := range core.macro {
+		names = append(names, macroName)
+	}
+	sort.Strings(names)
+
+	for _, macroName := range names {
 		visited := map[string]struct{}{macroName: {}}
-		if je := core.findPaste(macroName, macro, visited); je != nil {
+		if je := core.findPaste(macroName, core.macro[macroName], visited); je != nil {
 			return je
 		}
 	}
